@@ -191,6 +191,8 @@ def check(run):
         if isinstance(fi.node, ast.Lambda):
             continue
         memo = [d for d in fi.decorators if prog.dotted(fi.module, d.func if isinstance(d, ast.Call) else d) in CACHE_DECORATORS]
+        if memo and not common.may_return_nodes(prog, fi):
+            memo = []       # memoised predicate / bytes helper: its results contain no node
         n_fresh += 1
         if memo or fi in prog.decorated_decoders():
             run.ob("R8-fresh-nodes", f"{fi.fq}/not-memoised", not memo, f"{fi.module.rel}:{fi.lineno}",
